@@ -418,6 +418,8 @@ class PulseSequence:
         cls = self.__class__
         copied = cls.__new__(cls)
         copied.__dict__.update(self.__dict__)
+        # The intermediates dict is updated in place, do not share it with the copy
+        copied._intermediates = dict(self._intermediates)
         return copied
 
     def __deepcopy__(self, memo=None) -> 'PulseSequence':
